@@ -201,7 +201,6 @@ func cmdDev(args []string) int {
 	return rc
 }
 
-func cmdCheck(args []string) int { return 2 }
 
 var _ = ssa.BuilderMode(0)
 
